@@ -34,6 +34,19 @@ fn schedule_hashes(events: &[Event]) -> (u64, u64, usize) {
     (h, order, threads.len())
 }
 
+/// For a multi-threaded run: mostly the thread count for which the solvers' frontier search leaves
+/// the most tasks for the pool (see `HNode::frontier_tasks`), so that the frontier code is on the
+/// path of the run at all
+pub fn frontier_threads(rng: &mut crate::rng::Rng, tree: &crate::tree::HNode, method: cfr::SolveMethod, threads: usize) -> usize {
+    if threads > 1 && rng.chance(0.6) {
+        let (t, tasks) = tree.best_threads(crate::solve::frontier_modes(method), &[2, 3, 4, 5, 6, 8, 12, 16]);
+        if tasks >= 2 {
+            return t;
+        }
+    }
+    threads
+}
+
 fn sampling_for(rng: &mut Rng, method: SolveMethod) -> (String, Box<dyn Fn() -> Sampling>) {
     if method == SolveMethod::Full {
         return ("none".into(), Box::new(|| Sampling::Production));
